@@ -56,7 +56,9 @@ Definition proto : res hval := Ok (mkH cb_none [] None 2).
 
 Definition bind {A B} (x : res A) (f : A -> res B) : res B :=
   match x with Ok a => f a | Raise k => Raise k | OutOfFuel => OutOfFuel end.
-Notation "'do' x <- e ; f" := (bind e (fun x => f)) (at level 200, x pattern, e at level 100, f at level 200).
+Notation "'do' x <- e ; f" := (bind e (fun x => f)) (at level 200, x name, e at level 100, f at level 200).
+Notation "'do' ' p <- e ; f" := (bind e (fun x => let 'p := x in f))
+  (at level 200, p pattern, e at level 100, f at level 200).
 
 Definition blen (l : list Z) : Z := Z.of_nat (length l).
 
@@ -442,7 +444,7 @@ Definition enc_arg (a : arg) : list Z :=
 
 Definition enc_hval (h : hval) : list Z :=
   [h_cb h; h_rc h] ++ (match h_reply h with None => [0; 0] | Some (t, m) => [t; m] end) ++
-  [blen (h_args h)] ++ concat (map enc_arg (h_args h)).
+  [Z.of_nat (length (h_args h))] ++ concat (map enc_arg (h_args h)).
 
 Definition enc_res (r : res hval) : list Z :=
   match r with Ok h => 0 :: enc_hval h | Raise k => [1; k] | OutOfFuel => [2] end.
@@ -459,6 +461,6 @@ Definition entry_handle (args : list Z) : list Z :=
 Definition entry_loop_error (args : list Z) : list Z :=
   match args with
   | [v; a; rc] => let l := loop_error_args (mkCfg v a false false) rc in
-                  blen l :: concat (map enc_arg l)
+                  Z.of_nat (length l) :: concat (map enc_arg l)
   | _ => []
   end.
